@@ -1137,10 +1137,12 @@ def sun_compact(U, rtol=1e-12, atol=1e-12):
         raise ValueError("The input matrix is not unitary.")
 
     # if Unitary, factorize into phase times Special Unitary
-    SU = U.copy()
+    # complex working copy: for a real (orthogonal) input with det = -1 the power
+    # ``det ** (-1 / n)`` of a negative numpy float is nan
+    SU = U.astype(np.complex128)
     if not np.isclose(det, 1, rtol=rtol, atol=atol):
-        SU *= det ** (-1 / n)
         global_phase = np.angle(det)
+        SU *= np.exp(-1j * global_phase / n)
 
     # Decompose the matrix
     parameters_no_modes = _sun_parameters(SU, rtol, atol)
